@@ -145,7 +145,14 @@ func vfRunSender(t *testing.T, sc *vfCcfbScript, out *vfWriter) { //nolint:cyclo
 	defer kept.Flush()
 	clock := &vfClock{now: vfAt(sc.Base, 0)}
 	tick := &vfTicker{c: make(chan time.Time)}
-	opts := []Option{SenderTicker(func(time.Duration) ticker { return tick }), SenderNow(clock.Now)}
+	nTickers := 0
+	opts := []Option{SenderTicker(func(time.Duration) ticker {
+		if nTickers++; nTickers > 1 { // (the other connection of the same factory gets a ticker of its own, which never fires)
+			return &vfTicker{c: make(chan time.Time)}
+		}
+
+		return tick
+	}), SenderNow(clock.Now)}
 	if sc.Max > 0 {
 		// there is no exported option for the maximum report size
 		opts = append(opts, func(s *SenderInterceptor) error {
@@ -177,6 +184,18 @@ func vfRunSender(t *testing.T, sc *vfCcfbScript, out *vfWriter) { //nolint:cyclo
 		return len(pkts), nil
 	}))
 
+	// another connection of the same factory receives look-alike packets (same SSRCs, other numbers): nothing of it may
+	// show in the reports of the first one
+	twin, err := f.NewInterceptor("twin")
+	if err != nil {
+		t.Fatalf("VERIF-INFRA NewInterceptor (twin): %v", err)
+	}
+	twin.BindRTCPWriter(interceptor.RTCPWriterFunc(func(p []rtcp.Packet, _ interceptor.Attributes) (int, error) { return len(p), nil }))
+	var twinNext []byte
+	twinReader := twin.BindRemoteStream(&interceptor.StreamInfo{SSRC: 1}, interceptor.RTPReaderFunc(
+		func(buf []byte, a interceptor.Attributes) (int, interceptor.Attributes, error) { return copy(buf, twinNext), a, nil }))
+	defer func() { _ = twin.Close() }()
+
 	type bound struct {
 		reader interceptor.RTPReader
 		next   []byte
@@ -184,6 +203,7 @@ func vfRunSender(t *testing.T, sc *vfCcfbScript, out *vfWriter) { //nolint:cyclo
 	streams := map[uint32]*bound{}
 	started := false
 	first := uint32(0)
+	nAdd := 0
 	for _, st := range sc.Steps {
 		switch st.A {
 		case "add":
@@ -210,6 +230,11 @@ func vfRunSender(t *testing.T, sc *vfCcfbScript, out *vfWriter) { //nolint:cyclo
 			}
 			b.next = raw
 			clock.Set(vfAt(sc.Base, st.T))
+			if nAdd++; nAdd > 2 && st.N%3 == 0 { // (the other connection; not before the first one's loop has made its ticker)
+				tp := rtp.Packet{Header: rtp.Header{Version: 2, SSRC: st.S, SequenceNumber: st.N + 500}, Payload: []byte{7}}
+				twinNext, _ = tp.Marshal()
+				_, _, _ = twinReader.Read(make([]byte, 1500), interceptor.Attributes{})
+			}
 			done := make(chan error, 1)
 			go func() {
 				n, _, err := b.reader.Read(make([]byte, 1500), interceptor.Attributes{})
